@@ -1,5 +1,298 @@
 import Driver.Common
-open Driver
+import GIV.Model.Lockedfile
+open GIV GIV.Lockedfile Driver
 
-/-- stub: replaced by the group's model driver. -/
-def main : IO Unit := run (fun _ => "bad-op")
+/-!
+  Model driver of the lockedfile group.
+
+  `replay<TAB><init: none|hex><TAB><trace: events separated by '|'><TAB><end: done|deadlock><TAB><final: none|hex>`
+      replays a trace of the instrumented package in the model: every `call` event starts the
+      named operation, every system-call event must be the next system call of that client's
+      running operation (same call, same arguments), must be enabled in the model's world (flock
+      table!), and must give the same result; every `ret` event must find the operation finished
+      with the same result.  Answer: `ok steps=<n> commits=<hex,hex,…>` or `reject <index> <reason>`.
+
+  `solo<TAB><init><TAB><ops separated by ';'>`
+      runs one client alone, without faults, and prints the system calls of its operations.
+-/
+
+def pathOfName (s : String) : Option Path :=
+  if s == "f" then some 0 else if s == "m" then some 1 else if s == "g" then some 2 else none
+
+def nameOfPath (p : Path) : String :=
+  if p == 0 then "f" else if p == 1 then "m" else if p == 2 then "g" else "?"
+
+def flagStr (flags : Nat) : String :=
+  let acc := match accMode flags with
+    | 0 => "RDONLY" | 1 => "WRONLY" | 2 => "RDWR" | _ => ""
+  acc ++ (if fCreat flags then "+CREATE" else "") ++ (if fTrunc flags then "+TRUNC" else "") ++
+    (if fExcl flags then "+EXCL" else "") ++ (if fAppend flags then "+APPEND" else "")
+
+def errName : Err → String
+  | .injected => "fail" | .enoent => "enoent" | .eexist => "eexist" | .ebadf => "ebadf"
+  | .einval => "einval" | .eintr => "eintr" | .eappend => "eappend" | .eclosed => "eclosed"
+
+def showRes : Res → String
+  | .ok => ""
+  | .fd n => s!"ok:fd{n}"
+  | .bytes b => "ok:" ++ toHex b
+  | .eof => "eof"
+  | .n k => s!"ok:{k}"
+  | .short k => s!"short:{k}"
+  | .size k => s!"ok:size={k}"
+  | .err e => errName e
+
+def showSys : Sys → String
+  | .open p flags => s!"open {nameOfPath p} {flagStr flags}"
+  | .flock fd .ex => s!"flock fd{fd} EX"
+  | .flock fd .sh => s!"flock fd{fd} SH"
+  | .funlock fd => s!"flock fd{fd} UN"
+  | .ftruncate fd n => s!"ftruncate fd{fd} {n}"
+  | .read fd n => s!"read fd{fd} {n}"
+  | .write fd bs => s!"write fd{fd} {toHex bs}"
+  | .pwrite fd bs off => s!"pwrite fd{fd} {toHex bs} {off}"
+  | .fstat fd => s!"fstat fd{fd}"
+  | .close fd => s!"close fd{fd}"
+  | .mlock m => s!"lock M{m}"
+  | .munlock m => s!"unlock M{m}"
+
+def parseNat (s : String) : Option Nat := s.toNat?
+
+def dropPrefix (s : String) (n : Nat) : String := (s.drop n).toString
+
+structure RState where
+  s : State
+  mmap : List (String × Nat)
+  clients : List Cid
+  steps : Nat
+
+def addClient (cs : List Cid) (c : Cid) : List Cid := if cs.contains c then cs else c :: cs
+
+/-- The transform function named by `t<hex>` / `a<hex>` / `x`. -/
+def transformFn (spec : String) : Option (Bytes → Option Bytes) :=
+  let arg := dropPrefix spec 1
+  if spec.startsWith "t" then (fromHex arg).map fun b => fun _ => some b
+  else if spec.startsWith "a" then (fromHex arg).map fun b => fun old => some (old ++ b)
+  else if spec.startsWith "x" then some fun _ => none
+  else none
+
+def userIO (act : String) : Option UserIO :=
+  let arg := dropPrefix act 1
+  if act.startsWith "r" then (parseNat arg).map .read
+  else if act.startsWith "w" then (fromHex arg).map .write
+  else if act.startsWith "p" then
+    match arg.splitOn "@" with
+    | [h, o] => do
+      let b ← fromHex h
+      let off ← parseNat o
+      pure (.pwrite b off)
+    | _ => none
+  else if act.startsWith "z" then (parseNat arg).map .truncate
+  else if act == "s" then some .stat
+  else none
+
+/-- The operation started by a `call …` event. -/
+def opOfCall (held : List Handle) (args : List String) : Option Op :=
+  match args with
+  | ["read", p] => (pathOfName p).map .read
+  | ["write", p, h] => do
+    let p ← pathOfName p
+    let b ← fromHex h
+    pure (.write p b)
+  | ["transform", p, spec] => do
+    let p ← pathOfName p
+    let t ← transformFn spec
+    pure (.transform p t)
+  | ["mlock", k] => (parseNat k).map fun k => .mutexLock 1 k
+  | ["munlock"] => (held.find? fun h => h.mu.isSome).map .unlockM
+  | ["openfile", p, fl] => do
+    let p ← pathOfName p
+    let fl ← parseNat fl
+    pure (.openFile p fl)
+  | ["create", p] => (pathOfName p).map Op.create
+  | ["edit", p] => (pathOfName p).map Op.edit
+  | ["open", p] => (pathOfName p).map Op.open
+  | ["user", act] => do
+    let h ← held.find? fun h => h.mu.isNone
+    let io ← userIO act
+    pure (.user h io)
+  | ["close"] => (held.find? fun h => h.mu.isNone).map .closeH
+  | _ => none
+
+/-- Does the finished operation's result agree with a `ret …` event? -/
+def retMatches (r : Ret) (args : List String) : Bool :=
+  match args with
+  | ["read", "ok", h] => (match r with | .bytes b => toHex b == h | _ => false)
+  | ["read", "err", _] => r == .err
+  | ["write", st] => (st == "ok" && r == .ok) || (st == "err" && r == .err)
+  | ["transform", st, _] => (st == "ok" && r == .ok) || (st == "err" && r == .err)
+  | ["mlock", "ok"] => (match r with | .handle _ => true | _ => false)
+  | ["mlock", "err"] => r == .err
+  | ["munlock"] => true
+  | ["openfile", "ok"] => (match r with | .handle _ => true | _ => false)
+  | ["openfile", "err"] => r == .err
+  | ["user"] => (match r with | .res _ => true | _ => false)
+  | ["close", st] => (st == "ok" && r == .ok) || (st == "err" && r == .err)
+  | _ => false
+
+def fdOfName (s : String) : Option Fd := if s.startsWith "fd" then parseNat (dropPrefix s 2) else none
+
+/-- The chunk size an event implies (read: requested size; write: number of bytes). -/
+def chunkOf (op : String) (args : List String) : Nat :=
+  match op, args with
+  | "read", [_, n] => (parseNat n).getD 0
+  | "write", [_, h] => ((fromHex h).map List.length).getD 0
+  | _, _ => 0
+
+def faultOf (op res : String) : Fault :=
+  if res == "fail" then .fail
+  else if res == "eintr" then .eintr
+  else if res.startsWith "short:" && (op == "write" || op == "pwrite") then
+    .short ((parseNat (dropPrefix res 6)).getD 0)
+  else .none
+
+/-- Observed event text of a model system call; mutex names are mapped through `mmap`. -/
+def sysMatches (mmap : List (String × Nat)) (sc : Sys) (op : String) (args : List String) :
+    Option (List (String × Nat)) :=
+  match sc with
+  | .mlock m | .munlock m =>
+    let want := match sc with | .mlock _ => "lock" | _ => "unlock"
+    match args with
+    | [name] =>
+      if op != want then none else
+      match mmap.find? (fun x => x.1 == name) with
+      | some (_, m') => if m' == m then some mmap else none
+      | none => if mmap.any (fun x => x.2 == m) then none else some ((name, m) :: mmap)
+    | _ => none
+  | _ => if showSys sc == String.intercalate " " (op :: args) then some mmap else none
+
+def splitEvent (ev : String) : Option (Cid × String × List String × String) :=
+  let (lhs, res) := match ev.splitOn " -> " with
+    | [a, b] => (a, b)
+    | _ => (ev, "")
+  match lhs.splitOn " " with
+  | p :: _t :: op :: args =>
+    if p.startsWith "p" then (parseNat (dropPrefix p 1)).map fun c => (c, op, args, res) else none
+  | _ => none
+
+def replayEvent (st : RState) (ev : String) : Except String RState := do
+  let some (c, op, args, res) := splitEvent ev | throw "unparsable event"
+  let st := { st with clients := addClient st.clients c, steps := st.steps + 1 }
+  let cl := st.s.cl c
+  if op == "critical" || op == "panic" || op == "go" then
+    if op == "panic" then throw "implementation panicked" else pure st
+  else if op == "call" then
+    let some o := opOfCall cl.held args | throw "unknown call"
+    match step st.s ⟨c, .call o⟩ with
+    | some s' => pure { st with s := s' }
+    | none => throw "call not enabled in the model"
+  else if op == "ret" then
+    match cl.cur with
+    | none => throw "ret without running operation"
+    | some fr =>
+      match fr.pc with
+      | .done r =>
+        if retMatches r args then
+          match step st.s ⟨c, .ret⟩ with
+          | some s' => pure { st with s := s' }
+          | none => throw "ret not enabled"
+        else throw "operation result differs from the model's"
+      | _ => throw ("operation returned but the model's program has not finished; model next: " ++
+          (match sysOf fr 1 with | some (sc, _) => showSys sc | none => "?"))
+  else
+    match cl.cur with
+    | none => throw "system call outside an operation"
+    | some fr =>
+      let n := chunkOf op args
+      match sysOf fr n with
+      | none => throw "model program has no further system call"
+      | some (sc, _) =>
+        match sysMatches st.mmap sc op args with
+        | none => throw ("system call differs; model expects: " ++ showSys sc)
+        | some mmap =>
+          match stepRes st.s ⟨c, .sys (faultOf op res) n⟩ with
+          | none => throw ("not enabled in the model (blocked): " ++ showSys sc)
+          | some (s', r) =>
+            let got := match r with | some r => showRes r | none => ""
+            if got == res then pure { st with s := s', mmap := mmap }
+            else throw ("result differs; model: " ++ showSys sc ++ " -> " ++ got)
+
+def replayAll (st : RState) (evs : List String) (i : Nat) : Except (Nat × String) RState :=
+  match evs with
+  | [] => .ok st
+  | e :: rest =>
+    match replayEvent st e with
+    | .error m => .error (i, m)
+    | .ok st' => replayAll st' rest (i + 1)
+
+def files0Of (initS : String) : Option (Path → Option Bytes) :=
+  if initS == "none" then some (fun _ => none)
+  else (fromHex initS).map fun b => fun p => if p = 0 then some b else none
+
+def showOptBytes : Option Bytes → String
+  | none => "none"
+  | some b => toHex b
+
+def replay (initS trace endS finalS : String) : String :=
+  match files0Of initS with
+  | none => "bad-op"
+  | some files0 =>
+    let evs := if trace == "" then [] else trace.splitOn "|"
+    match replayAll ⟨init files0, [], [], 0⟩ evs 0 with
+    | .error (i, m) => s!"reject {i} {m}"
+    | .ok st =>
+      let running := st.clients.filter fun c => (st.s.cl c).cur.isSome
+      let blocked := running.all fun c => (stepRes st.s ⟨c, .sys .none 1⟩).isNone
+      let fin := showOptBytes (st.s.w.files 0)
+      if endS == "done" && !running.isEmpty then s!"reject {evs.length} end: done but a model client is still running"
+      else if endS == "deadlock" && (running.isEmpty || !blocked) then
+        s!"reject {evs.length} end: deadlock but a model client can move"
+      else if fin != finalS then s!"reject {evs.length} final contents differ; model: {fin}"
+      else
+        let commits := String.intercalate "," ((st.s.w.hist 0).reverse.map toHex)
+        s!"ok steps={st.steps} commits={commits}"
+
+/-- Run the operations of one client alone (no faults, whole-buffer reads and writes). -/
+def soloOps (s : State) (ops : List String) (fuel : Nat) (acc : List String) : List String :=
+  match fuel with
+  | 0 => acc ++ ["out-of-fuel"]
+  | fuel + 1 =>
+    let cl := s.cl 0
+    match cl.cur with
+    | none =>
+      match ops with
+      | [] => acc
+      | o :: rest =>
+        match opOfCall cl.held (o.splitOn " ") with
+        | none =>
+          -- Close / unlock of a file that OpenFile did not hand out: the caller has nothing to close
+          if o == "close" || o == "munlock" then soloOps s rest fuel acc else acc ++ ["bad-call:" ++ o]
+        | some op =>
+          match step s ⟨0, .call op⟩ with
+          | none => acc ++ ["call-not-enabled:" ++ o]
+          | some s' => soloOps s' rest fuel (acc ++ ["call " ++ o])
+    | some fr =>
+      match fr.pc with
+      | .done _ =>
+        match step s ⟨0, .ret⟩ with
+        | none => acc ++ ["ret-not-enabled"]
+        | some s' => soloOps s' ops fuel acc
+      | _ =>
+        let n := 1048576
+        match sysOf fr n, stepRes s ⟨0, .sys .none n⟩ with
+        | some (sc, _), some (s', r) =>
+          soloOps s' ops fuel (acc ++ [showSys sc ++ (match r with
+            | some r => if showRes r == "" then "" else " -> " ++ showRes r
+            | none => "")])
+        | _, _ => acc ++ ["blocked"]
+
+def handle (line : String) : String :=
+  match line.splitOn "\t" with
+  | ["replay", initS, trace, endS, finalS] => replay initS trace endS finalS
+  | ["solo", initS, ops] =>
+    match files0Of initS with
+    | none => "bad-op"
+    | some files0 => String.intercalate "|" (soloOps (init files0) (ops.splitOn ";") 10000 [])
+  | _ => "bad-op"
+
+def main : IO Unit := run handle
